@@ -12,7 +12,6 @@
 package main
 
 import (
-	"os"
 	"context"
 	"flag"
 	"fmt"
@@ -176,10 +175,10 @@ func checkProgram(scn string, p *Program, sets []lset) {
 				if m := bracketMonitor(cr.Events); m != "" {
 					sig := "C20:unbracketed:" + eng
 					if p.Tail && variants[eng].Tip == 1 && want == got {
-						sig = "F24:" + eng + "-tail-callee-gets-no-listener-events" // exactly the recorded in-place tail call behaviour
+						sig = "F31:" + eng + "-tail-callee-gets-no-listener-events" // exactly the recorded in-place tail call behaviour
 					}
 					if p.Tail && variants[eng].Tj == 1 && want == got {
-						sig = "F25:" + eng + "-tail-caller-never-closed" // exactly the recorded jump behaviour
+						sig = "F32:" + eng + "-tail-caller-never-closed" // exactly the recorded jump behaviour
 					}
 					rep.Violate(hx.Violation{Kind: "impl-violation", Signature: sig,
 						What: "listener events are not bracketed: " + m, Input: in, Actual: got})
@@ -496,10 +495,6 @@ func main() {
 	defer orc.Close()
 	rep = hx.NewReport("C20", "call-tree programs generated per seed (one function per tree node in modules A, B or the host module; call forms direct/indirect/import/host call-back/start/tail; outcomes return/unreachable/div-by-zero/out-of-bounds/host panic/exit) x listener sets (no factory, none, all, 3 random subsets, hosts only, wasm only) x both engines, plus recursion chains (depth 2..100 and to overflow) and the shared-cache scenario; distinct = distinct (scenario, engine, listener set, call index, concrete call tree with values)")
 	seed := *hx.Seed
-	if os.Getenv("HC20_DBG") != "" {
-		dbg()
-		return
-	}
 	witnesses()
 	n := 40
 	if hx.Thorough() {
@@ -513,15 +508,4 @@ func main() {
 	rep.Note("engine variants tied on this run: interpreter=%+v compiler=%+v", *variants["interpreter"], *variants["compiler"])
 	rep.Note("GOMAXPROCS=%d", runtime.GOMAXPROCS(0))
 	rep.Write(orc)
-}
-
-func dbg() {
-	for _, eng := range engines {
-		for _, lf := range [][2]string{{"unreachable", ""}, {"host", "panic"}} {
-			for _, d := range []int{1, 5, 27, 28, 29, 30, 31, 40, 64, 100} {
-				w := runRec(eng, recAll(), lf[0], lf[1], uint32(d), false, 0)
-				fmt.Println(eng, lf, "depth", d, "NB", w.NB, "NX", w.NX, bracketMonitor(w.Events))
-			}
-		}
-	}
 }
